@@ -52,7 +52,7 @@ def close(a, b, rtol, atol=0.0):
     a = np.asarray(a, dtype=float)
     b = np.asarray(b, dtype=float)
     with np.errstate(all="ignore"):
-        return (np.abs(a - b) <= rtol * np.maximum(np.abs(a), np.abs(b)) + atol) | (a == b)
+        return (np.abs(a - b) <= rtol * np.maximum(np.abs(a), np.abs(b)) + atol) | (a == b) | (np.isnan(a) & np.isnan(b))
 
 
 # ----------------------------------------------------------------------------- part pdf
@@ -177,6 +177,10 @@ def check_norm(case, ctx):
         if N > 4_000_000:
             return
     X = np.stack(cols, axis=1)
+    if not (np.all(np.isfinite(X)) and np.all(np.isfinite(weights))):
+        # a panel edge coincides with the support boundary in double precision (location >> scale * q^(1/beta))
+        ctx.cls("norm_skipped:degenerate_panel")
+        return
     ok, f = ctx.call("norm:pdf", model.pdf, X)
     if not ok:
         return
